@@ -227,9 +227,33 @@ def fmt_k(x):
     return repr(float(x))
 
 
-def rxn_text(r):
-    side = lambda part, ipart: ' + '.join(['%s%s' % ('' if n == 1 else '%d ' % n, k) for k, n in r[part]] +
-                                          ['(%s%s)' % ('' if n == 1 else '%d ' % n, k) for k, n in r[ipart]])
+def _split_count(n, rng):
+    """a coefficient as a list of positive summands (repeated terms on a side): 3 -> [3] | [1, 2] | [2, 1] | [1, 1, 1]"""
+    if rng is None or n <= 1 or rng.random() < 0.45:
+        return [n]
+    parts, left = [], n
+    while left > 0:
+        p = rng.randint(1, left)
+        parts.append(p)
+        left -= p
+    return parts if len(parts) > 1 else [1] * n
+
+
+def rxn_text(r, rng=None):
+    """the reaction as a line of text. With `rng` the MANY ways of writing the same reaction are sampled: a coefficient split into
+    repeated terms of the same substance (`A + A`, `1 A + 1 A`, `A + 2 A`), an explicit coefficient 1 (`1 P`), bare and
+    coefficient-carrying terms mixed and in any order; inactive parts in parentheses likewise."""
+    def side(part, ipart):
+        terms = []
+        for k, n in r[part]:
+            for q in _split_count(n, rng):
+                terms.append('%s%s' % ('' if q == 1 and (rng is None or rng.random() < 0.6) else '%d ' % q, k))
+        for k, n in r[ipart]:
+            for q in _split_count(n, rng):
+                terms.append('(%s%s)' % ('' if q == 1 and (rng is None or rng.random() < 0.6) else '%d ' % q, k))
+        if rng is not None and rng.random() < 0.5:
+            rng.shuffle(terms)
+        return ' + '.join(terms)
     return '%s -> %s; %s' % (side('reac', 'inact_reac'), side('prod', 'inact_prod'), fmt_k(_fr(r['param'])))
 
 
@@ -250,15 +274,39 @@ def unit_factor(name):
             'second': 1.0, 'minute': 60.0, 'millisecond': 1e-3, 'hour': 3600.0}[name]
 
 
-def rxn_text_units(r, cu, tu):
+def rxn_text_units(r, cu, tu, rng=None):
     """the reaction line with a unit-carrying rate constant: k in (cu)^(1-order)/(tu), same physical value"""
     order = sum(n for _, n in r['reac'])
     k = float(_fr(r['param'])) * unit_factor(tu) * unit_factor(cu) ** (order - 1)     # harness value is in molar, second
     cu_txt = {'molar': 'molar', 'millimolar': 'millimolar', 'mol/m3': '(mol/metre**3)'}[cu]
-    txt = rxn_text(r).rsplit(';', 1)[0] + '; %r' % k
+    txt = rxn_text(r, rng).rsplit(';', 1)[0] + '; %r' % k
     if order != 1:
         txt += '*%s**%d' % (cu_txt, 1 - order)
     return txt + '/' + tu
+
+
+def rand_sysopt(rng, dyadic=False):
+    """the system class / options the builder accepts besides the default SymbolicSys: pyodesys ScaledSys with dep_scaling and
+    indep_scaling (None = default class)"""
+    if rng.random() < 0.65:
+        return None
+    if dyadic:
+        sc = lambda: rat_json(F(2) ** rng.choice([-10, -6, -3, -1, 0, 1, 4, 10]))
+    else:
+        sc = lambda: (float(10 ** rng.randint(-4, 6)) if rng.random() < 0.6 else float(2.0 ** rng.randint(-12, 20))) if rng.random() < 0.85 else 1.0
+    # pyodesys checks fw(bw(x)) == x in float arithmetic and refuses (ValueError "did you set real=True?") a dep_/indep_scaling whose
+    # reciprocal does not round-trip, e.g. 0.00097, 53.7, 2630.0 — a limitation of the delegated library; only round-tripping values are drawn
+    tau = 1
+    if rng.random() < 0.6:
+        tau = rat_json(F(2) ** rng.randint(-10, 10)) if dyadic or rng.random() < 0.4 else float(10 ** rng.randint(-4, 4))
+    return {'dep': sc(), 'indep': tau}
+
+
+def sys_kwargs(sysopt):
+    if not sysopt:
+        return {}
+    from pyodesys.symbolic import ScaledSys
+    return {'SymbolicSys': ScaledSys, 'dep_scaling': float(_fr(sysopt['dep'])), 'indep_scaling': float(_fr(sysopt['indep']))}
 
 
 def rand_units(rng, ns):
@@ -296,6 +344,14 @@ class C06(Property):
             'molar/millimolar/mol m-3 per second/minute, one of 6 concentration units PER initial concentration, c0 as dict / list / quantity '
             'array, output times in s/min/ms/h, optional output units) and are converted back before the same comparisons; the Euler-step '
             'claim is re-checked at every output row through the same (unit-carrying) entry point. '
+            'SYSTEM CLASSES / OPTIONS: 35% of the callback correspondence cases and of the integrations are built with '
+            'get_odesys(SymbolicSys=ScaledSys, dep_scaling=s, indep_scaling=tau) (s, tau powers of two / ten incl. != 1, with and without '
+            'unit_registry); correspondence through the exactly rescaled plain system (k_int = k s^(1-n)/tau at state s*y), oracle in the '
+            "USER's scale (step = returned/tau, cap 1/tau): safe AND maximal, also at every output row of the trajectories. "
+            'TEXT: 70% of the integrations are written in sampled spellings (a coefficient split into repeated terms `A + A`, `1 A + 1 A`, '
+            '`A + 2 A`, explicit coefficient 1, bare/coefficient mixes, shuffled order, inactive parts likewise) and read through '
+            'ReactionSystem.from_string or Reaction.from_string + constructor, 30% of them with generic substances without composition '
+            '(no balance check to catch a mis-read; accuracy vs expm / closed forms only). '
             'HISTORIES (explore:history, euler:*:after-history): parameter scans / refits on the SAME ReactionSystem / Reaction objects '
             '(from_string or constructor): 2-4 steps, each re-assigns rxn.param over +-2 decades (total spread of the constants <= 8 decades, the calibrated regime), optionally touches rate_expr / rates / '
             'string / get_odesys, rebuilds with get_odesys and integrates; every integration is compared with the exact solution for the '
@@ -326,6 +382,11 @@ class C06(Property):
         '"from text input through to the result arrays": ReactionSystem.from_string -> get_odesys -> pyodesys plumbing (names order, unit '
         'conversion callbacks, output arrays) is exercised by the exploration only; no theorem composes C12\'s parser model with sysRates',
         'unit-aware entry points (get_odesys(unit_registry=...), quantities in and out) of integrate and max_euler_step_cb: oracle only',
+        'other system classes / options of the builder (pyodesys ScaledSys with dep_scaling / indep_scaling): the theorems speak about the '
+        'plain system; that ScaledSys IS the plain system with k_int = k s^(1-n)/tau at s*y is used by the correspondence, not proved; the '
+        'user-scale reading of the returned step (h/indep_scaling, cap 1/indep_scaling) is an interpretation checked by the oracle only',
+        'the many spellings of a reaction in text (repeated terms, explicit 1, mixes) reach the integrator unchanged: sampled only (C12 proves '
+        'the parser model, nothing composes it with the kinetics here)',
         'zero composition coefficients (numpy 0/0 -> nan instead of ZeroDivisionError) and include_params=False / substitutions: outside '
         'the model and not generated',
     )
@@ -395,8 +456,11 @@ class C06(Property):
         pre = None
         if rng.random() < 0.25:             # history: the same objects carried other constants before (scan / refit), powers of two
             pre = [[rat_json(F(2) ** rng.randint(-6, 6)) for _ in rxns] for _ in range(rng.randint(1, 2))]
+        sysopt = rand_sysopt(rng, dyadic=True) if planted in ('balanced', 'inactive-reactant') else None
+        if sysopt:      # a state of the wrong length is a TypeError inside pyodesys' scaling pre-processor (ValueError otherwise): not modelled
+            states = [st for st in states if len(st) == len(subs)]
         return {'op': 'max_euler_step_cb', 'subs': subs, 'rxns': rxns, 'states': states, 'planted': planted,
-                'fseed': rng.randrange(10 ** 9), 'pre': pre}
+                'fseed': rng.randrange(10 ** 9), 'pre': pre, 'sysopt': sysopt}
 
     def _linear_case(self, rng, tier, max_decades=8):
         decades = rng.choice([d for d in (2, 4, 6, 8) if d <= max_decades])
@@ -414,7 +478,8 @@ class C06(Property):
         tout = log_times(rng, 0.01 / max(ks), rng.uniform(1, 5) / min(ks))        # up to the slowest time scale
         tol = rng.choice([1e-6, 1e-8, 1e-9, 1e-10])
         return {'kind': 'linear', 'subs': subs, 'rxns': net.rxns, 'c0': c0, 'tout': tout, 'atol': tol * rng.choice([1, 1e-2]),
-                'rtol': tol, 'integrator': rng.choice([None, 'scipy']), 'units': rand_units(rng, len(subs)) if rng.random() < 0.4 else None}
+                'rtol': tol, 'integrator': rng.choice([None, 'scipy']), 'units': rand_units(rng, len(subs)) if rng.random() < 0.4 else None,
+                'text': self._rand_text(rng), 'sysopt': rand_sysopt(rng)}
 
     def _bimol_case(self, rng, tier):
         which = rng.choice(['irrev', 'irrev', 'rev', 'rev', 'dimer', 'dimer', 'equal', 'equal', 'equal_rev'])
@@ -434,7 +499,14 @@ class C06(Property):
         tol = rng.choice([1e-6, 1e-8, 1e-9, 1e-10])
         return {'kind': 'bimol', 'which': which, 'kf': kf, 'kb': kb, 'major': major, 'minor': minor, 'prod': prod, 'swap': swap,
                 'tout': tout, 'atol': tol * rng.choice([1, 1e-2]), 'rtol': tol, 'integrator': rng.choice([None, 'scipy']),
-                'units': rand_units(rng, 3) if rng.random() < 0.4 else None}
+                'units': rand_units(rng, 3) if rng.random() < 0.4 else None, 'text': self._rand_text(rng), 'sysopt': rand_sysopt(rng)}
+
+    def _rand_text(self, rng):
+        """how the system is written and read: plain lines (None) or sampled spellings (repeated terms, explicit 1, mixed order) through
+        ReactionSystem.from_string or Reaction.from_string; 'nocomp': generic substances without composition (no balance check)"""
+        if rng.random() < 0.3:
+            return None
+        return {'seed': rng.randrange(10 ** 9), 'via': rng.choice(['system', 'system', 'reaction']), 'nocomp': rng.random() < 0.3}
 
     def _traj_case(self, rng, tier):
         kgen = lambda: rat_json(F(float('%.3g' % (10 ** rng.uniform(-2, 3)))))
@@ -449,7 +521,8 @@ class C06(Property):
         tout = log_times(rng, 0.01 / kmax, 100 / kmax)
         tol = rng.choice([1e-6, 1e-8, 1e-9])
         return {'kind': 'traj', 'subs': subs, 'rxns': net.rxns, 'c0': c0, 'tout': tout, 'atol': tol, 'rtol': tol,
-                'integrator': rng.choice([None, 'scipy']), 'units': rand_units(rng, len(subs)) if rng.random() < 0.4 else None}
+                'integrator': rng.choice([None, 'scipy']), 'units': rand_units(rng, len(subs)) if rng.random() < 0.4 else None,
+                'text': self._rand_text(rng), 'sysopt': rand_sysopt(rng)}
 
     def _history_case(self, rng, tier):
         """a parameter scan / refit on the SAME objects: build once, then per step re-assign rate constants (over decades), optionally
@@ -458,7 +531,7 @@ class C06(Property):
         base = None
         while base is None:
             base = self._linear_case(rng, tier, max_decades=4) if rng.random() < 0.7 else self._bimol_case(rng, tier)
-        base['units'] = None
+        base['units'] = base['text'] = base['sysopt'] = None
         if base['kind'] == 'bimol' and base['which'] == 'dimer':
             base['which'] = 'irrev'
         nr = len(base['rxns']) if base['kind'] == 'linear' else 2
@@ -510,8 +583,18 @@ class C06(Property):
     def model_case(self, case):
         op = case.get('op')
         if op == 'max_euler_step_cb':
-            return {'op': op, 'keys': [k for k, _ in case['subs']], 'comps': [comp for _, comp in case['subs']],
-                    'rxns': case['rxns'], 'states': case['states'], 'pre': case.get('pre')}
+            mc = {'op': op, 'keys': [k for k, _ in case['subs']], 'comps': [comp for _, comp in case['subs']],
+                  'rxns': case['rxns'], 'states': case['states'], 'pre': case.get('pre')}
+            so = case.get('sysopt')
+            if so:
+                # ScaledSys works on y_int = s*y, t_int = tau*t; for mass action of order n that IS the plain system with
+                # k_int = k * s^(1-n) / tau (exact for powers of two), so the model is asked about that system at the state s*y;
+                # the step the callback returns is the one in t_int (it is handed to the solver as `first_step`).
+                sd, ti = _fr(so['dep']), _fr(so['indep'])
+                mc['user_rxns'], mc['user_states'], mc['sysopt'] = case['rxns'], case['states'], so
+                mc['rxns'] = [dict(r, param=rat_json(_fr(r['param']) * sd ** (1 - sum(n for _, n in r['reac'])) / ti)) for r in case['rxns']]
+                mc['states'] = [[rat_json(_fr(v) * sd) for v in st] for st in case['states']]
+            return mc
         if op == 'upper_conc_bounds':
             return {'op': op, 'comps': case['comps'], 'init': case['init']}
         if op == 'first_order_matrix':
@@ -520,7 +603,7 @@ class C06(Property):
 
     def classify(self, case):
         if case.get('op') == 'max_euler_step_cb':
-            return 'euler:%s:nr=%d%s' % (case.get('planted'), len(case['rxns']), ':after-history' if case.get('pre') else '')
+            return 'euler:%s:nr=%d%s' % (case.get('planted'), len(case['rxns']), ':after-history' if case.get('pre') else '') + (':ScaledSys' if case.get('sysopt') else '')
         if case.get('op'):
             return case['op']
         k = case.get('kind')
@@ -535,20 +618,22 @@ class C06(Property):
 
     def _utag(self, case):
         un = case.get('units')
+        extra = (':ScaledSys' if case.get('sysopt') else '') + (':text-%s%s' % (case['text']['via'], '-nocomp' if case['text'].get('nocomp') else '')
+                                                                if case.get('text') else '')
         if not un:
-            return ''
-        return ':units-%s-%s' % (un['form'], 'mixed' if len(set(un['conc'])) > 1 else 'uniform')
+            return extra
+        return extra + ':units-%s-%s' % (un['form'], 'mixed' if len(set(un['conc'])) > 1 else 'uniform')
 
     def nontrivial(self, case):
         return bool(case.get('rxns')) or case.get('op') == 'upper_conc_bounds' or case.get('kind') in ('bimol', 'history')
 
     # ---- real objects -----------------------------------------------------------------------
-    def _build(self, subs, rxns, pre=None):
+    def _build(self, subs, rxns, pre=None, sysopt=None):
         """-> (rsys, odesys | exception, extra) for a case; cached between impl and oracle.
         `pre` = HISTORY before the state that is compared: a list of per-reaction scale vectors (powers of two). The SAME Reaction /
         ReactionSystem objects are first given the constants `param*scale`, used (get_odesys, rate_expr, rates, the callback), and
         then re-assigned (`rxn.param = ...`) — as in a parameter scan or refit; what is returned is built from the final constants."""
-        key = json.dumps([subs, rxns, pre], sort_keys=True)
+        key = json.dumps([subs, rxns, pre, sysopt], sort_keys=True)
         if key in self._cache:
             return self._cache[key]
         from chempy import ReactionSystem, Substance
@@ -576,7 +661,7 @@ class C06(Property):
         try:
             with warnings.catch_warnings():
                 warnings.simplefilter('ignore')
-                odesys, extra = get_odesys(rsys)
+                odesys, extra = get_odesys(rsys, **sys_kwargs(sysopt))
         except (ValueError, TypeError) as e:       # ValueError: a substance without rate entry; TypeError: no reaction at all
             odesys, extra = e, None
         if len(self._cache) > 8:
@@ -591,7 +676,9 @@ class C06(Property):
             warnings.simplefilter('ignore')
             if op == 'max_euler_step_cb':
                 subs = list(zip(mc['keys'], mc['comps']))
-                rsys, odesys, extra = self._build([list(s) for s in subs], mc['rxns'], mc.get('pre'))
+                so = mc.get('sysopt')
+                sd = float(_fr(so['dep'])) if so else 1.0
+                rsys, odesys, extra = self._build([list(s) for s in subs], mc.get('user_rxns', mc['rxns']), mc.get('pre'), so)
                 if extra is None:                                   # get_odesys / pyodesys refused the system
                     if isinstance(odesys, TypeError) and rsys.check_balance(strict=True) is not True:
                         return 'None'                               # (the model asks the gate first)
@@ -600,12 +687,13 @@ class C06(Property):
                 if cb is None:
                     return 'None'
                 out = []
-                for st in mc['states']:
+                for st in mc.get('user_states', mc['states']):
                     y = [float(_fr(v)) for v in st]
+                    yi = [v * sd for v in y]                        # the solver's (pre-processed) variables
                     try:
                         h = cb(0, y)
-                        f = odesys.f_cb(0, np.array(y), ())
-                        ub = rsys.upper_conc_bounds(y)
+                        f = odesys.f_cb(0, np.array(yi), ())
+                        ub = rsys.upper_conc_bounds(yi)
                         out.append('%r;[%s];[%s]' % (float(h), ','.join(repr(float(v)) for v in f), ','.join(repr(float(v)) for v in ub)))
                     except Exception as e:
                         out.append(type(e).__name__)
@@ -686,11 +774,42 @@ class C06(Property):
                 return self._oracle_history(case)
         return None
 
+    def _euler_claim(self, subs, rxns, y, h, cap, where=''):
+        """the advertised step `h` (already in the USER's time scale, cap = largest value the callback may return there) at the
+        non-negative state `y` (user scale, substance order of `subs`): 0 <= h <= cap, one explicit Euler step keeps every
+        concentration in [0, elemental bound], and h is the largest such step <= cap (f and the bounds recomputed here)"""
+        ns = len(subs)
+        f, mag = indep_rhs(subs, rxns, y)
+        ub = indep_bounds(subs, y)
+        if not (0 <= h <= cap * (1 + 1e-12)):
+            return 'max_euler_step_cb: step %r (user time scale) outside [0, %r] at y=%r%s' % (h, cap, y, where)
+        best = math.inf
+        for i in range(ns):
+            tol = 1e-9 * (abs(y[i]) + h * mag[i] + (ub[i] if math.isfinite(ub[i]) else 0)) + 1e-300
+            yn = y[i] + h * f[i]
+            if yn < -tol:
+                return 'Euler step h=%r makes %s negative: %r + h*%r = %r (y=%r)%s' % (h, subs[i][0], y[i], f[i], yn, y, where)
+            if yn > ub[i] + tol:
+                return 'Euler step h=%r takes %s above its elemental bound %r: %r (y=%r)%s' % (h, subs[i][0], ub[i], yn, y, where)
+            if f[i] > 0 and 0 < ub[i] - y[i] <= 1e-6 * ub[i]:
+                best = -1                                      # ub - y cancels (also inside the callback): limit ill-conditioned
+            elif abs(f[i]) > 1e-6 * mag[i]:                     # well-conditioned derivative: its step limit is meaningful
+                lim = (ub[i] - y[i]) / f[i] if f[i] > 0 else -y[i] / f[i]
+                best = min(best, lim)
+            elif f[i] != 0:
+                best = -1                                      # ill-conditioned component: skip the maximality check
+        if best >= 0:
+            want = min(best, cap)
+            if abs(h - want) > 1e-7 * max(want, 1e-300) and not (want == 0 and h == 0):
+                return 'max_euler_step_cb returned h=%r, the largest safe step <= %r is %r (y=%r)%s' % (h, cap, want, y, where)
+        return None
+
     def _oracle_euler(self, case):
         subs, rxns = case['subs'], case['rxns']
         if case.get('planted') in ('unbalanced', 'nonparticipating'):
             return None
-        rsys, odesys, extra = self._build(subs, rxns, case.get('pre'))
+        so = case.get('sysopt')
+        rsys, odesys, extra = self._build(subs, rxns, case.get('pre'), so)
         if extra is None:
             return None
         cb = extra['max_euler_step_cb']
@@ -698,32 +817,15 @@ class C06(Property):
             return 'a balanced system with compositions got no max_euler_step_cb'
         rng = random.Random(case.get('fseed', 0))
         ns = len(subs)
+        tau = float(_fr(so['indep'])) if so else 1.0          # the returned step is in the solver's time t_int = tau * t
+        where = ' [ScaledSys dep_scaling=%r indep_scaling=%r]' % (float(_fr(so['dep'])), tau) if so else ''
         states = [[float(_fr(v)) for v in st] for st in case['states'] if len(st) == ns and all(_fr(v) >= 0 for v in st)]
         for _ in range(6):                                      # random float states, several decades, some zeros
             states.append([0.0 if rng.random() < 0.25 else 10 ** rng.uniform(-4, 1.5) for _ in range(ns)])
         for y in states:
-            h = float(cb(0, y))
-            f, mag = indep_rhs(subs, rxns, y)
-            ub = indep_bounds(subs, y)
-            if not (0 <= h <= 1):
-                return 'max_euler_step_cb returned h=%r outside [0, 1] at y=%r' % (h, y)
-            best = math.inf
-            for i in range(ns):
-                tol = 1e-9 * (abs(y[i]) + h * mag[i] + (ub[i] if math.isfinite(ub[i]) else 0)) + 1e-300
-                yn = y[i] + h * f[i]
-                if yn < -tol:
-                    return 'Euler step h=%r makes %s negative: %r + h*%r = %r (y=%r)' % (h, subs[i][0], y[i], f[i], yn, y)
-                if yn > ub[i] + tol:
-                    return 'Euler step h=%r takes %s above its elemental bound %r: %r (y=%r)' % (h, subs[i][0], ub[i], yn, y)
-                if abs(f[i]) > 1e-6 * mag[i]:                   # well-conditioned derivative: its step limit is meaningful
-                    lim = (ub[i] - y[i]) / f[i] if f[i] > 0 else -y[i] / f[i]
-                    best = min(best, lim)
-                elif f[i] != 0:
-                    best = -1                                  # ill-conditioned component: skip the maximality check
-            if best >= 0:
-                want = min(best, 1.0)
-                if abs(h - want) > 1e-7 * max(want, 1e-300) and not (want == 0 and h == 0):
-                    return 'max_euler_step_cb returned h=%r, the largest safe step <= 1 is %r (y=%r)' % (h, want, y)
+            f = self._euler_claim(subs, rxns, y, float(cb(0, y)) / tau, 1.0 / tau, where)
+            if f:
+                return f
         return None
 
     def _oracle_bounds(self, case):
@@ -784,24 +886,38 @@ class C06(Property):
         kw = {'atol': case['atol'], 'rtol': case['rtol'], 'nsteps': 50000}
         if case.get('integrator'):
             kw['integrator'] = case['integrator']
-        factory = lambda name: Substance(name, composition=comps[name])
+        tx = case.get('text') or {}
+        trng = random.Random(tx['seed']) if tx.get('seed') is not None else None     # how the reactions are WRITTEN
+        nocomp = bool(tx.get('nocomp'))
+        factory = (lambda name: Substance(name)) if nocomp else (lambda name: Substance(name, composition=comps[name]))
+        so = case.get('sysopt')
+        sd, tau = (float(_fr(so['dep'])), float(_fr(so['indep']))) if so else (1.0, 1.0)
+        kw['atol'] = kw['atol'] * sd            # the tolerance applies to the solver's variables s*y; case['atol'] is in the user's scale
+
+        def from_text(lines):
+            if tx.get('via') == 'reaction':   # Reaction.from_string per line + constructor, instead of ReactionSystem.from_string
+                from chempy import Reaction
+                keys = [k for k, _ in subs]
+                return ReactionSystem([Reaction.from_string(l, keys) for l in lines], OrderedDict((k, factory(k)) for k in keys))
+            return ReactionSystem.from_string('\n'.join(lines), substance_factory=factory)
         if not un:
             if rsys is None:
-                rsys = ReactionSystem.from_string('\n'.join(rxn_text(r) for r in rxns), substance_factory=factory)
-            odesys, extra = get_odesys(rsys)
+                rsys = from_text([rxn_text(r, trng) for r in rxns])
+            odesys, extra = get_odesys(rsys, **sys_kwargs(so))
             res = odesys.integrate([0.0] + list(case['tout']), c0d, **kw)
             xout, yout = np.asarray(res.xout), np.asarray(res.yout)
             raw_cb = extra['max_euler_step_cb']
-            cb = None if raw_cb is None else (lambda y: float(raw_cb(0, list(y))))
+            # the callback returns the step in the solver's time t_int = tau*t (it is meant as `first_step`): user scale = h/tau
+            cb = None if raw_cb is None else (lambda y: float(raw_cb(0, list(y))) / tau)
         else:
             from chempy.units import SI_base_registry, to_unitless, default_units as u
-            text = '\n'.join(rxn_text_units(r, un['k_conc'], un['k_time']) for r in rxns)
-            rsys = ReactionSystem.from_string(text, substance_factory=factory)
+            rsys = from_text([rxn_text_units(r, un['k_conc'], un['k_time'], trng) for r in rxns])
             kwo = {}
             if un.get('out_conc'):
                 kwo['output_conc_unit'] = unit_of(un['out_conc'])
             if un.get('out_time'):
                 kwo['output_time_unit'] = unit_of(un['out_time'])
+            kwo.update(sys_kwargs(so))
             odesys, extra = get_odesys(rsys, unit_registry=SI_base_registry, **kwo)
             cunit = dict(zip([k for k, _ in subs], un['conc']))
 
@@ -818,8 +934,14 @@ class C06(Property):
             xout = np.asarray(to_unitless(res.xout, u.second), dtype=float)
             yout = np.asarray(to_unitless(res.yout, u.molar), dtype=float)
             raw_cb = extra['max_euler_step_cb']
-            # SI_base_registry: the internal time unit is the second, so the returned (unitless) step is in seconds
-            cb = None if raw_cb is None else (lambda y: float(raw_cb(0 * unit_of(tu), pack(dict(zip(odesys.names, y))))))
+            # SI_base_registry: the internal time unit is the second, so the returned (unitless) step is in tau * seconds
+            cb = None if raw_cb is None else (lambda y: float(raw_cb(0 * unit_of(tu), pack(dict(zip(odesys.names, y))))) / tau)
+        if cb is not None:
+            cb.cap = 1.0 / tau
+        if nocomp:
+            if raw_cb is not None:
+                return 'substances without composition got a max_euler_step_cb'
+            cb = 'nocomp'
         if not res.info.get('success', False):
             return 'integration reported failure: %r' % {k: v for k, v in res.info.items() if not k.startswith('internal')}
         names = list(odesys.names)
@@ -914,24 +1036,21 @@ class C06(Property):
             return f
         return self._euler_along(subs, rxns, names, yout, cb)
 
-    def _euler_along(self, subs, rxns, names, yout, cb):
-        """the Euler-step claim at states taken from the trajectory (through the same — possibly unit-carrying — entry point)"""
+    def _euler_along(self, subs, rxns, names, yout, cb, cap=1.0):
+        """the Euler-step claim (safe AND maximal) at states taken from the trajectory, through the same entry point (unit-carrying,
+        ScaledSys, ...); `cb(y)` returns the step in the user's time scale"""
+        if cb == 'nocomp':
+            return None
         if cb is None:
             return 'a balanced system with compositions got no max_euler_step_cb'
+        cap = getattr(cb, 'cap', cap)
         order = {k: i for i, k in enumerate(names)}
         subs_o = sorted(subs, key=lambda s: order[s[0]])
         for row in yout:
             y = [max(float(v), 0.0) for v in row]
-            h = cb(y)
-            f, mag = indep_rhs(subs_o, rxns, y)
-            ub = indep_bounds(subs_o, y)
-            if not (0 <= h <= 1):
-                return 'max_euler_step_cb returned h=%r outside [0, 1] at y=%r' % (h, y)
-            for i in range(len(y)):
-                tol = 1e-9 * (abs(y[i]) + h * mag[i] + ub[i])
-                yn = y[i] + h * f[i]
-                if yn < -tol or yn > ub[i] + tol:
-                    return 'Euler step h=%r from trajectory state %r leaves [0, %r] for %s: %r' % (h, y, ub[i], names[i], yn)
+            f = self._euler_claim(subs_o, rxns, y, cb(y), cap, ' [trajectory state]')
+            if f:
+                return f
         return None
 
     def _bimol_exact(self, case, t, A, B):
